@@ -30,6 +30,10 @@ RULE = ("grammar-generated BED/BED6/narrowPeak/VCF/VCF-with-genotypes/VCF-with-d
         "(Python list, int32 array, list of NumPy scalars, mask as list); SEVERAL objects alive together: the chunks handed out by ONE "
         "reader (read_chunk repeatedly) or the tables of two readers, one of them modified IN PLACE by attribute assignment (`set`) - "
         "every other one must still write its own source bytes / read its own columns, the modified one writes the assigned column; "
+        "DERIVING must not change the parent: a named table M that already has a replaced column (replace / assignment / a selection or "
+        "concatenation of such a table) gives rise to a second table (replace of another or the same column, selection + assignment, "
+        "concatenation + assignment, a written copy, a cached read), then M - or a selection / concatenation made from it afterwards - "
+        "is written and shows its own replacement only (`obj` nodes: one Python object per named table); "
         "observable = bytes written by bnp.open(out,'w').write(result). Non-trivial = program has >= 2 steps and the selection "
         "is a proper/re-ordered/repeated subset, or >= 1 replaced field")
 EXHAUSTIVE = {"quick": False, "thorough": False}
@@ -304,6 +308,8 @@ def _spec_len(prog, lens):
         return _spec_len(prog["touch"], lens)
     if "get" in prog:
         return _spec_len(prog["get"], lens)
+    if "obj" in prog:
+        return _spec_len(prog["of"], lens)
     if "set" in prog:
         return _spec_len(prog["set"], lens)
     if "seq" in prog:
@@ -452,6 +458,8 @@ def _has_cat(p):
         return "chunk" in p
     if "cat" in p or "catall" in p or "rep" in p:
         return True
+    if "obj" in p:
+        return _has_cat(p["of"])
     if "seq" in p:
         return _has_cat(p["seq"][1])
     return _has_cat(p.get("touch") or p.get("get") or p.get("set") or p.get("sel"))
@@ -462,6 +470,8 @@ def _has_rep(p):
         return False
     if "rep" in p:
         return True
+    if "obj" in p:
+        return _has_rep(p["of"])
     if "cat" in p:
         return any(_has_rep(q) for q in p["cat"])
     if "set" in p:
@@ -477,14 +487,14 @@ def _apply_sets(p):
     if "seq" in p:
         side, main = p["seq"]
         main = _apply_sets(main)
-        if "set" in side and "t" in side["set"]:
+        if "set" in side and ("t" in side["set"] or "obj" in side["set"]):
             leaf = side["set"]
 
             def sub(q):
                 if q == leaf:
                     return {"rep": leaf, "kw": side["kw"]}
-                if "t" in q or "catall" in q:
-                    return q
+                if "t" in q or "catall" in q or "obj" in q:
+                    return q        # another object (already created): an assignment to `leaf` is none of its business
                 if "cat" in q:
                     return dict(q, cat=[sub(x) for x in q["cat"]])
                 if "seq" in q:
@@ -497,7 +507,7 @@ def _apply_sets(p):
         return {"seq": [_apply_sets(side), main]}
     if "set" in p:
         return {"rep": _apply_sets(p["set"]), "kw": p["kw"]}
-    if "t" in p or "catall" in p:
+    if "t" in p or "catall" in p or "obj" in p:
         return p
     if "cat" in p:
         return dict(p, cat=[_apply_sets(x) for x in p["cat"]])
@@ -706,6 +716,50 @@ def cases(tier, rng):
                     pr = {"seq": [S(0), P(1)]}
                     k2 = rng.choice(sorted(rep))
                     yield _set_op(dict(base, prog=pr, repl=[[k2, rep[k2], _new_values(rng, rep[k2], plens[1])]]))
+    # 0f. DERIVING a table must not change the table it was derived from: M is a named table that ALREADY has a replaced column
+    #     (replace / attribute assignment / a selection or concatenation of such a table); a second table is derived from M
+    #     (replace of ANOTHER column, of the same column, selection + assignment, concatenation, a written copy), then M itself -
+    #     or a selection / concatenation made from it afterwards - is written: it shows its own replacement only
+    for fmt in fmts:
+        rep = FORMATS[fmt][3]
+        if fmt in ("bam", "gtf") or len(rep) < 2:
+            continue
+        for eol in ("\n", "\r\n"):
+            base = make_case(rng, fmt, 0, 0, eol)
+            while len(base["recs"][0]) < 5:
+                base["recs"][0] = base["recs"][0] + make_case(rng, fmt, 0, 0, eol)["recs"][0]
+            base["recs"] = [base["recs"][0][:5]]
+            if fmt in ("vcf", "vcfg", "vcfi") and len({r["raw"].count("\t") for r in base["recs"][0]}) != 1:
+                base["recs"][0] = [base["recs"][0][0]] * 5
+            d0 = {"t": 0}
+            KW = lambda k, n: [[k, rep[k], _new_values(rng, rep[k], n)]]
+            for _ in range(1):
+                k1, k2 = rng.sample(sorted(rep), 2)
+                ix = {"ints": [3, 0, 4, 1]}
+                parents = [({"obj": 0, "of": {"rep": d0, "kw": KW(k1, 5)}}, 5),
+                           ({"obj": 0, "of": {"rep": {"sel": d0, "ix": ix}, "kw": KW(k1, 4)}}, 4),
+                           ({"obj": 0, "of": {"sel": {"rep": d0, "kw": KW(k1, 5)}, "ix": ix}}, 4),
+                           ({"obj": 0, "of": {"rep": {"rep": d0, "kw": KW(k2, 5)}, "kw": KW(k1, 5)}}, 5),
+                           ({"obj": 0, "of": {"cat": [{"rep": d0, "kw": KW(k1, 5)}, {"sel": d0, "ix": {"slice": [None, 2, 1]}}]}}, 7)]
+                for M, n in parents:
+                    derived = [{"rep": M, "kw": KW(k2, n)}, {"rep": M, "kw": KW(k1, n)}, {"touch": {"rep": M, "kw": KW(k2, n)}},
+                               {"set": {"obj": 1, "of": {"sel": M, "ix": {"slice": [None, None, -1]}}}, "kw": KW(k2, n)},
+                               {"set": {"obj": 1, "of": {"rep": M, "kw": KW(k2, n)}}, "kw": KW(k1, n)},
+                               {"set": {"obj": 1, "of": {"cat": [M, M]}}, "kw": KW(k2, 2 * n)},
+                               {"rep": {"sel": M, "ix": {"slice": [1, None, 1]}}, "kw": KW(k2, n - 1)},
+                               {"get": {"rep": M, "kw": KW(k2, n)}, "fs": [k2] if k2 in _readable(fmt) else _readable(fmt)[:1]}]
+                    mains = [M, {"sel": M, "ix": {"slice": [None, None, -1]}}, {"cat": [M, {"sel": d0, "ix": {"ints": [4]}}]}]
+                    for D in derived[:2] + rng.sample(derived[2:], 3 if tier == "quick" else 6):
+                        m = mains[0] if rng.random() < 0.5 else rng.choice(mains)
+                        # M is created first, then the derived table, then M (or something made from it) is written
+                        yield _set_op(dict(base, prog={"seq": [M, {"seq": [D, m]}]}))
+                    # the same with the parent modified by attribute assignment (the leaf object itself)
+                    if n == 5:
+                        yield _set_op(dict(base, prog={"seq": [{"set": d0, "kw": KW(k1, 5)},
+                                                              {"seq": [{"rep": d0, "kw": KW(k2, 5)}, d0]}]}))
+                        yield _set_op(dict(base, prog={"seq": [{"set": d0, "kw": KW(k1, 5)},
+                                                              {"seq": [{"touch": {"rep": d0, "kw": KW(k2, 5)}},
+                                                                       {"sel": d0, "ix": {"slice": [None, None, 2]}}]}]}))
     # 1. random programs
     for fmt in fmts:
         m = per if fmt not in ("gtf", "bam") else per // 3
@@ -738,6 +792,8 @@ def _steps(p):
         return 1 + _steps(p["touch"])
     if "get" in p:
         return 1 + _steps(p["get"])
+    if "obj" in p:
+        return _steps(p["of"])
     if "set" in p:
         return 1 + _steps(p["set"])
     if "seq" in p:
@@ -792,6 +848,8 @@ def _spec_eval(p, tabs):
         return _spec_eval(p["touch"], tabs)
     if "get" in p:
         return _spec_eval(p["get"], tabs)
+    if "obj" in p:
+        return _spec_eval(p["of"], tabs)
     if "set" in p:
         return _spec_eval(p["set"], tabs)
     if "seq" in p:
@@ -835,6 +893,8 @@ def _field_eval(p, c):
         return _field_eval(p["touch"], c)
     if "get" in p:
         return _field_eval(p["get"], c)     # reading (caching) a column is not replacing it
+    if "obj" in p:
+        return _field_eval(p["of"], c)      # a named object has the value it was created with (deriving from it changes nothing)
     if "seq" in p:
         return None if _field_eval(p["seq"][0], c) is None else _field_eval(p["seq"][1], c)
     if "rep" in p:
@@ -1021,6 +1081,12 @@ def _run(p, paths, bt, bnp, scratch):
     if "seq" in p:
         _run(p["seq"][0], paths, bt, bnp, scratch)
         return _run(p["seq"][1], paths, bt, bnp, scratch)
+    if "obj" in p:
+        # a named intermediate table: created once (at its first use), every later use is the same Python object
+        key = ("obj", p["obj"])
+        if key not in _LEAVES:
+            _LEAVES[key] = _run(p["of"], paths, bt, bnp, scratch)
+        return _LEAVES[key]
     if "set" in p:
         t = _run(p["set"], paths, bt, bnp, scratch)
         names = FIELD_NAMES[_FMT_OF[id(paths)]]
